@@ -107,12 +107,23 @@ def r1(ctx):
                       "directories at level %d with maxdepth %d are %s (%s): the descent gate differs from `maxdepth = 0 or level < maxdepth`" %
                       (d, mx, "entered" if not (mx == 0 or d < mx) else "not entered", m))
     # calc_depth counts path separators
+    # calc_depth counts the `/` separators and nothing else: evaluated on nine paths (a backslash, a dot, a blank are not separators)
+    import interp
     ch = ctx.anchor_hir("util::calc_depth")
-    ok = any(c["k"] == "MCall" and c["m"] == "matches" and peel(c["args"][0]).get("v") == "/" for c in walk_exprs(ch)) and \
-        any(c["k"] == "MCall" and c["m"] == "count" for c in walk_exprs(ch))
+    cps = ctx.prog.fns["util::calc_depth"]["params"]
+    ok, why = True, ""
+    for path in ("/", "/a", "/a/b", "/a/b/c", "a", "", "/a\\b/c", "/a.b/c d", "//a"):
+        try:
+            got = interp.Interp(prog=ctx.prog).run(ch, {cps[0]["id"]: path})
+        except interp.Undecided as e:
+            ok, why = False, "cannot evaluate calc_depth(%r): %s" % (path, e)
+            break
+        if got != path.count("/"):
+            ok, why = False, "calc_depth(%r) = %s, the path has %d separators" % (path, got, path.count("/"))
+            break
     ctx.obligation(ok)
     if not ok:
-        ctx.violation("depth/calc_depth", ctx.where("util::calc_depth"), "calc_depth must count the `/` separators of the canonical path")
+        ctx.violation("depth/calc_depth", ctx.where("util::calc_depth"), "calc_depth must count the `/` separators of the canonical path: %s" % why)
     # the canonical depth is the depth of the directory being listed
     cp = [x for x in walk(hir) if x["k"] == "Let" and x["pat"].get("id") == canon]
     src = render(locs.chase(cp[0]["init"]["args"][0])) if cp else ""
